@@ -10,7 +10,10 @@ Local Open Scope Z_scope.
     the general statement needs a bound on priorities during the inner loop that does not
     grow with [times] and is O(T) independently of the number of validators ("tricky, left
     to the reader" in the source); the bound that is proved (ProofsSpec.spec_rounds_bounds)
-    is (2n-1) * 2T + n, which exceeds int64 for n = 10000 validators and T near the cap. *)
+    is (2n-1) * 2T + n, which exceeds int64 for n = 10000 validators and T near the cap.
+    Proved for any [times] under n + (2n + 1) T <= 3 * 2^60 (Properties.C12_increment_any_times_partial,
+    ProofsAnyTimes.v): what is still missing is exactly a bound on the priorities that is
+    independent of the number of validators. *)
 Definition C12_no_overflow_any_times_statement : Prop :=
   forall s (times : positive),
     wf_set s -> bounded B0 (vs_vals s) ->
